@@ -10,3 +10,32 @@ VARIANTS = [
       rule='C01-IEF', key='UNDEF:colnam'),
     M('C01', 'refactor-rename-local', E(BC, "nNonNull", "n_non_null", count=4), kind='refactor'),
 ]
+
+BS = 'tdda/constraints/base.py'
+PC = 'tdda/constraints/pd/constraints.py'
+VARIANTS += [
+    M('C01', 'discovery-sign-too-strong-at-zero', E(BC, "                            sign = 'positive' if m > 0 else 'non-negative'", "                            sign = 'positive' if m >= 0 else 'non-negative'"),
+      rule='C01-CLOSE', key='sign:(0, 1)'),
+    M('C01', 'discovery-sign-branches-swapped', E(BC, "                        elif M <= 0:\n                            sign = 'negative' if M < 0 else 'non-positive'", "                        elif M <= 0:\n                            sign = 'non-positive' if M < 0 else 'negative'"),
+      rule='C01-CLOSE', key='sign:(-1, 0)'),
+    M('C01', 'discovery-min-with-open-precision', E(BC, "                        min_constraint = MinConstraint(m)", "                        min_constraint = MinConstraint(m, precision='open')"),
+      rule='C01-CLOSE', key='kind:min'),
+    M('C01', 'discovery-max-from-other-statistic', E(BC, "                    M = self.calc_max(fieldname)", "                    M = self.calc_min(fieldname)"),
+      rule='C01-CLOSE', key='kind:max'),
+    M('C01', 'verifier-nulls-strict', E(BC, "        result = self.get_null_count(colname) <= value", "        result = self.get_null_count(colname) < value"),
+      rule='C01-CLOSE', key='kind:max_nulls'),
+    M('C01', 'two-statistics-share-a-cache-key', E(BC, "        return self.get_cached_value('max', colname, self.calc_max)", "        return self.get_cached_value('min', colname, self.calc_max)"),
+      rule='C01-SHARED', key='cache-key'),
+    M('C01', 'verification-regex-flags-differ', E(PC, "RE_FLAGS = re.UNICODE | re.DOTALL", "RE_FLAGS = re.UNICODE"),
+      rule='C01-SHARED', key='rex-flags-value'),
+    M('C01', 'date-reader-requires-T', E(BS, "RDT = re.compile(r'^(\\d{4})[-/](\\d{1,2})[-/](\\d{1,2})[ T]'", "RDT = re.compile(r'^(\\d{4})[-/](\\d{1,2})[-/](\\d{1,2})T'"),
+      rule='C01-DATELANG', key='writer:naive datetime'),
+    M('C01', 'date-fraction-via-float', E(BS, "                return datetime.datetime(*(int(m.group(i))\n                                           for i in range(1, L + 1)))",
+                                          "                parts = [int(m.group(i)) for i in range(1, min(L, 6) + 1)]\n                if L == 7:\n                    parts.append(int(float('0.' + m.group(7)) * 1000000))\n                return datetime.datetime(*parts)"),
+      rule='C01-DATELANG', key='exact'),
+    M('C01', 'verifier-repairs-frame-mid-run', E(BC, "        actual_type = self.get_tdda_type(colname)\n        if self.type_checking == 'strict':", "        actual_type = self.get_tdda_type(colname)\n        if actual_type == 'real':\n            self.df[colname] = self.df[colname].astype(float)\n        if self.type_checking == 'strict':"),
+      rule='C01-CACHE', key=''),
+    M('C01', 'refactor-discovery-locals-renamed', [E(BC, "                    m = self.calc_min(fieldname)\n                    M = self.calc_max(fieldname)\n                    if not self.is_null(m):\n                        min_constraint = MinConstraint(m)\n                    if not self.is_null(M):\n                        max_constraint = MaxConstraint(M)",
+                                                     "                    lo = self.calc_min(fieldname)\n                    hi = self.calc_max(fieldname)\n                    m, M = lo, hi\n                    if not self.is_null(lo):\n                        min_constraint = MinConstraint(lo)\n                    if not self.is_null(hi):\n                        max_constraint = MaxConstraint(hi)")],
+      kind='refactor'),
+]
